@@ -1035,14 +1035,14 @@ func init() {
 			ruleHdrDecoder(c, h, "graph.Sparse6Decode")
 			ds := ruleDegSync(c, inFiles("encoding.go"))
 			ds.MinInst = 0
-			return []*RuleResult{h, ruleSextet(c), ruleEdgeByte(c, "graph"), ds, ruleUwrap(c, inFiles("encoding.go"))}
+			return []*RuleResult{h, ruleSextet(c), ruleEdgeByte(c, "graph"), ds, ruleUwrap(c, inFiles("encoding.go")), ruleSubword(c, inFiles("encoding.go"))}
 		},
 		controls: func(ctl *Ctx) []*RuleResult {
 			h := &RuleResult{Rule: "HDR"}
 			ruleHdrEncoder(ctl, h, "hdrctl.BadEncode", 0, "")
 			h2 := &RuleResult{Rule: "HDR"}
 			ruleHdrDecoder(ctl, h2, "hdrctl.BadDecode")
-			return []*RuleResult{h, h2, ruleUwrap(ctl, inFiles("hdrctl.go"))}
+			return []*RuleResult{h, h2, ruleUwrap(ctl, inFiles("hdrctl.go")), ruleSubword(ctl, inFiles("hdrctl.go"))}
 		},
 	})
 }
@@ -1107,5 +1107,51 @@ func ruleUwrap(c *Ctx, files func(string) bool) *RuleResult {
 		}
 	}
 	r.inst("%d codec functions scanned for loop-carried unsigned subtractions", n)
+	return r
+}
+
+// ruleSubword: arithmetic on graph sizes and vertex numbers is done in int; a product formed in an
+// 8- or 16-bit type (u*(u-1) with u a byte) wraps as soon as a graph has more than a handful of
+// vertices, silently addressing another cell. Every multiplication of two non-constant operands in
+// a type narrower than 32 bits must be proved to fit.
+func ruleSubword(c *Ctx, files func(string) bool) *RuleResult {
+	r := &RuleResult{Rule: "SUBWORD", Doc: "no product of two non-constant operands is formed in an integer type narrower than 32 bits unless it is proved to fit", MinInst: 1}
+	n := 0
+	for _, fn := range c.Funcs {
+		if fn.Synthetic != "" || fn.Blocks == nil || !files(c.Fset.Position(fn.Pos()).Filename) {
+			continue
+		}
+		n++
+		var P *Prover
+		for _, b := range fn.Blocks {
+			for _, in := range b.Instrs {
+				bo, ok := in.(*ssa.BinOp)
+				if !ok || bo.Op != token.MUL || !isInt(bo.Type()) || intBits(bo.Type()) >= 32 {
+					continue
+				}
+				if _, isK := constInt(strip(bo.X)); isK {
+					continue
+				}
+				if _, isK := constInt(strip(bo.Y)); isK {
+					continue
+				}
+				if P == nil {
+					P = NewProver(c, fn)
+				}
+				src := c.srcAt(bo.Pos())
+				if src == "" {
+					src = valName(bo)
+				}
+				_, hi, _ := typeRange(bo.Type())
+				r.inst("%s: %s in %s", c.short(fn), src, bo.Type())
+				ok2 := P.Prove(P.polyLoose(bo.X).mul(P.polyLoose(bo.Y)).add(constP(-hi), 1), b)
+				r.oblig(ok2)
+				if !ok2 {
+					r.find(c.short(fn)+":narrow product "+src, c.instrPos(bo), "%s multiplies %s in %s: the product is not proved to stay within %d, so it wraps for all but the smallest vertex numbers and the result addresses a different cell", c.short(fn), src, bo.Type(), hi)
+				}
+			}
+		}
+	}
+	r.inst("%d functions scanned for products in sub-word integer types", n)
 	return r
 }
